@@ -133,7 +133,9 @@ def first_stage(case, d):
             for f in case["extra"]:
                 rng = np.random.Generator(np.random.PCG64(f))
                 cols[f] = rng.integers(-2 ** 31, 2 ** 31 - 1, n_il * n_xl)
-                hd[f] = cols[f].reshape(n_il, n_xl).astype(np.int32)
+                # (the integer type and byte order the caller's arrays come in: np.frombuffer on SEG-Y header bytes
+                # gives big-endian ones)
+                hd[f] = cols[f].reshape(n_il, n_xl).astype(["int32", ">i4", "int64", "<i4", ">i8"][(f + case["values"]["vseed"]) % 5])
             conv.numpy_convert(data, out, rate, bs, ilines=np.array(il), xlines=np.array(xl), samples=samples, trace_headers=hd)
             st_ = stages.Stage(vol=codec.image(data, rate), il=np.array(il), xl=np.array(xl), samples=samples,
                                headers=headers_from_cols(cols, n_il * n_xl), pos=list(range(n_il * n_xl)),
